@@ -92,4 +92,7 @@ func (imp *goImporter) initSourceImporter() {
 		imp.buildContext = &build.Default
 	}
 	imp.srcImporter = xsrcimporter.New(imp.buildContext, imp.fset)
+	// The packages that are imported from the source by this importer
+	// should depend on the cached packages, not on their copies.
+	xsrcimporter.AddPackages(imp.srcImporter, imp.state.cachedPackages())
 }
